@@ -15,8 +15,8 @@ import sys
 BASE = '/var/tmp/mutcamp'
 REPO = BASE + '/repo'
 VER = BASE + '/verif'
-FILES = ['pycdlib/pycdlib.py', 'pycdlib/dr.py', 'pycdlib/rockridge.py', 'pycdlib/udf.py', 'pycdlib/eltorito.py', 'pycdlib/isohybrid.py',
-         'pycdlib/headervd.py', 'pycdlib/inode.py', 'pycdlib/utils.py', 'pycdlib/path_table_record.py', 'pycdlib/pycdlibio.py', 'pycdlib/dates.py']
+FILES = ['pycdlib/pycdlib.py', 'pycdlib/pycdlib.py', 'pycdlib/pycdlib.py', 'pycdlib/dr.py', 'pycdlib/udf.py', 'pycdlib/rockridge.py', 'pycdlib/headervd.py', 'pycdlib/inode.py',
+         'pycdlib/eltorito.py', 'pycdlib/path_table_record.py']
 RULES = [(r' > ', ' >= '), (r' >= ', ' > '), (r' < ', ' <= '), (r' <= ', ' < '), (r' \+ 1\b', ''), (r' - 1\b', ''), (r' == ', ' != '),
          (r'\bnot ', ''), (r' \+= ', ' -= '), (r' and ', ' or '), (r'\b0x[0-9a-fA-F]+\b', None), (r' // ', ' % ')]
 
